@@ -134,7 +134,14 @@ def rand_invalid(rng, pool, bad=None):
 
 def rand_unknown_special(rng):
     while True:
-        tag = rng.choice([(1 << 63), (1 << 64) - 4, (1 << 64) - 100, rng.randrange(1 << 63, 1 << 64)])
+        known = rng.choice([TAG_SOURCE, TAG_WP, TAG_CS])
+        tag = rng.choice([(1 << 63), (1 << 64) - 4, (1 << 64) - 100, rng.randrange(1 << 63, 1 << 64),
+                          # near misses of the known tags: one bit flipped, the same low 32 / 16 / 8 bits under other high bits
+                          known ^ (1 << rng.randrange(63)),
+                          (known & 0xFFFFFFFF) | (rng.randrange(1 << 31, 1 << 32) << 32),
+                          (known & 0xFFFF) | (rng.randrange(1 << 47, 1 << 48) << 16),
+                          (known & 0xFF) | (rng.randrange(1 << 55, 1 << 56) << 8),
+                          (known & ~0xFFFFFFFF & ((1 << 64) - 1)) | rng.randrange(1 << 32)])
         if tag not in (TAG_SOURCE, TAG_WP, TAG_CS):
             return u64(tag) + rand_bytes(rng, 9)
 
